@@ -782,6 +782,11 @@ func (p *sparser) postfix() (SExpr, error) {
 		case "forall":
 			return p.quant(true)
 		case "exists":
+			// a Go parameter may be called `exists`: it is the quantifier only when a binder follows
+			if nx := p.peek(); nx.kind != "id" {
+				e = &SIdent{t.text}
+				break
+			}
 			return p.quant(false)
 		default:
 			e = &SIdent{t.text}
